@@ -127,6 +127,9 @@ Definition is_contained_unknown (c : Cfg) : bool :=
 Definition use_unknown_threshold (c : Cfg) (is_gt : bool) (o : Obj) : bool :=
   (lbl_is_unknown (o_label o) && negb is_gt) && negb (is_contained_unknown c).
 
+(* `confidence_threshold_list is not None and not is_gt`: the confidence list filters estimates only *)
+Definition conf_list (c : Cfg) (is_gt : bool) : option (list Q) := if is_gt then None else c_conf c.
+
 Definition uuid_step (c : Cfg) (is_gt : bool) (o : Obj) (t : bool) : bool :=
   if t then
     match c_uuids c with
@@ -161,7 +164,7 @@ Definition is_target (c : Cfg) (tf is_gt : bool) (o : Obj) : res bool :=
             | Some ks => if uut then t1 else t1 && negb (contains_any o ks)
             | None => t1
             end in
-  bind (step t2 (c_conf c)
+  bind (step t2 (conf_list c is_gt)
           (fun l => if uut then Ok (Some 0) else bind (label_thr c o l) (fun v => Ok (Some v)))
           (fun thr => Qltb thr (o_conf o))) (fun t3 =>
   match position_of tf o with
@@ -254,11 +257,11 @@ Definition kept (c : Cfg) (tf is_gt : bool) (o : Obj) : bool :=
   lbl_is_fp (o_label o) ||
   (if use_unknown_threshold c is_gt o then
      (* unknown-labelled estimate while unknown is not a target: confidence above 0, mean bounds *)
-     when (c_conf c) (fun _ => Qltb 0 (o_conf o)) &&
+     when (conf_list c is_gt) (fun _ => Qltb 0 (o_conf o)) &&
      when (position_of tf o) (in_range c qmean)
    else
      targeted c o && negb (ignored c o) &&
-     when (c_conf c) (fun l => holds (bound_for c o l) (fun thr => Qltb thr (o_conf o))) &&
+     when (conf_list c is_gt) (fun l => holds (bound_for c o l) (fun thr => Qltb thr (o_conf o))) &&
      when (position_of tf o) (fun p => in_range c (bound_for c o) p && points_ok c is_gt o) &&
      uuid_ok c is_gt o).
 
